@@ -9,6 +9,7 @@ CONSTANTS
   SharedPacker = ${SharedPacker}
   RearmGuard = ${RearmGuard}
   Rejected <- MCRejected
+  Keyed = ${Keyed}
 SPECIFICATION SpecE
 VIEW View
 ${EMIT}
